@@ -144,6 +144,21 @@ let () =
         let want = ["ser=1"; "s=" ^ show (List.filter (fun i -> not (to_d i)) (range 0));
                     "d=" ^ show (List.filter to_d (range 0))] in
         Mlutil.print_model want (if outs = want then "ok" else "fail:listener-not-serial-or-not-in-emit-order")
+    | [_] when kind = "cdeliver" ->
+        (* two concurrent deliveries, cap 1: Deliver emits stored(m1) only after AddMessage(m1) has returned
+           (manager.go), the store emits deleted(m1) from inside the evicting AddMessage(m2): as coded the
+           listener sees D1 (and S2) while stored(m1) has not even been emitted. The oracle demands
+           stored(n) before deleted(n) *)
+        let want = ["p1=D1,S2"; "p2=S1"] in
+        let has p e = List.exists (fun t ->
+          let pre = p ^ "=" in
+          String.length t > String.length pre && String.sub t 0 (String.length pre) = pre &&
+          List.mem e (split ',' (String.sub t (String.length pre) (String.length t - String.length pre)))) outs in
+        let verdict =
+          if outs = [] then "fail:no-observation"
+          else if has "p1" "D1" && not (has "p1" "S1") then "fail:concurrent-deleted-before-stored"
+          else "ok" in
+        Mlutil.print_model want verdict
     | [_; n; fail; rounds] when kind = "mdeliver" ->
         (* StoreManager.Deliver as coded: for each mailbox in order AddMessage, then the stored event;
            the first failing AddMessage ends the delivery. Oracle (stored_once / events_match_history):
